@@ -147,7 +147,11 @@ def check_case(case):
             scen = {}
             for (m_, s_, which) in targets:
                 if m_ == mgr:
-                    scen[s_] = {"runspecs": {"starttime": 1, "stoptime": nsteps, "dt": 1}, "properties": {},
+                    rs = {"starttime": 1, "stoptime": nsteps, "dt": 1}
+                    if case.get("runspec_variants"):
+                        # the scenarios of one call need not share their run specs: a longer one and a finer one
+                        rs = [rs, {"starttime": 1, "stoptime": nsteps + 2, "dt": 1}, {"starttime": 1, "stoptime": nsteps, "dt": 0.5}][which]
+                    scen[s_] = {"runspecs": rs, "properties": {},
                                 "agents": _agents_config({"agents": _variant(case["agents"], which)})}
             b.register_scenario_manager({mgr: {"type": "abm", "model": base, "scenarios": scen}})
         sel = case["select"]
@@ -271,6 +275,7 @@ def _body(ctx):
     def body(case):
         info, vs = check_case(case)
         labels = ["props-selected" if case["select"]["props"] else "counts-only"] + (["three-scenarios-two-managers"] if case.get("multi") else []) + \
+            (["different-run-specs"] if case.get("multi") and case.get("runspec_variants") else []) + \
             (["with-deletion"] if any(ch[1].startswith("delete") for v_ in case["script"].values() for ch in v_) else [])
         if info.get("formats") == "skipped":
             labels.append("formats-skipped(no common state)")
@@ -311,7 +316,7 @@ def case_strategy():
         sel_states = draw(st.lists(st.sampled_from(states), min_size=1, max_size=nstates, unique=True))
         sel_props = draw(st.lists(st.sampled_from(["x", "y"]), min_size=0, max_size=2, unique=True))
         sel_pt = draw(st.lists(st.sampled_from(PTYPES), min_size=1, max_size=4, unique=True))
-        return {"multi": draw(st.booleans()), "agents": agents, "nsteps": nsteps, "script": script,
+        return {"multi": draw(st.booleans()), "runspec_variants": draw(st.booleans()), "agents": agents, "nsteps": nsteps, "script": script,
                 "select": {"agents": sel_agents, "states": sel_states, "props": sel_props, "ptypes": sel_pt}}
     return build()
 
